@@ -12,6 +12,22 @@ use crate::scn::{Scenario, UnitCtl};
 use crate::world::*;
 use serde::{Deserialize, Serialize};
 
+/// A caller's own readable shape (the trait is public) that decodes the whole record through the
+/// generic enum first and converts afterwards: when the record is of another type, the library's own
+/// `MismatchShapeType` comes back after the *whole* record was consumed, not only its type code.
+pub struct Whole<S>(pub S);
+impl<S: TryFrom<shapefile::Shape, Error = shapefile::Error>> shapefile::ReadableShape for Whole<S> {
+    fn read_from<T: std::io::Read>(source: &mut T, record_size: i32) -> Result<Self, shapefile::Error> {
+        let shape = <shapefile::Shape as shapefile::ReadableShape>::read_from(source, record_size)?;
+        S::try_from(shape).map(Whole)
+    }
+}
+impl<S: Into<shapefile::Shape>> From<Whole<S>> for shapefile::Shape {
+    fn from(w: Whole<S>) -> shapefile::Shape {
+        w.0.into()
+    }
+}
+
 #[derive(Clone, Debug, Serialize, Deserialize)]
 pub struct ForRec {
     pub number: i32,
@@ -508,6 +524,39 @@ pub fn execute(s: &ForScn, ctx: &mut Ctx) {
             }
         }
         ctx.stats.absorb_world(&world.borrow());
+    }
+    if n >= 1 && s.ty != 0 {
+        // typed iteration through a caller-defined ReadableShape that consumes the whole record before
+        // it reports the mismatch: one item per index entry, each the record of its entry or the
+        // mismatch of its entry; (a) asking for the file's type (null records are the mismatches),
+        // (b) asking for another type (every record is one)
+        let others: Vec<i32> = [1, 5, 18, 31].into_iter().filter(|c| *c != s.ty).collect();
+        let other = others[n % others.len()];
+        for asked in [s.ty, other] {
+            let world = mk();
+            if let Open::Ok(mut r) = open(&world, true, s.rstack) {
+                let res = guarded(|| crate::on_type!(asked, S => drain(r.iter_shapes_as::<Whole<S>>(), cap), (Vec::new(), false)));
+                match res {
+                    Ok((items, capped)) => {
+                        let ok = !capped
+                            && items.len() == n
+                            && items.iter().zip(s.recs.iter()).all(|(it, rec)| {
+                                if rec.geom.ty == asked {
+                                    matches!(it, Ok(g) if diff_foreign(&expected_of(rec), rec.m_present, g).is_none())
+                                } else {
+                                    *it == Err(RErr::Mismatch { requested: asked, actual: rec.geom.ty })
+                                }
+                            });
+                        if !ok {
+                            ctx.fail("C14", "count", format!("whole-record-user-shape:{}", lsite), format!("iter_shapes_as::<a user shape that reads the whole record, then converts to {}> over {} index entries of {} yielded {:?}: not one item per entry, each its record or its mismatch", type_name(asked), n, type_name(s.ty), items.iter().map(item_short).collect::<Vec<_>>()));
+                        }
+                        ctx.stats.reach("typed-iteration-by-whole-record-user-shape");
+                    }
+                    Err(p) => ctx.fail("C14", "panic", p.site(), format!("whole-record user shape: {}", p.text())),
+                }
+            }
+            ctx.stats.absorb_world(&world.borrow());
+        }
     }
     if n >= 2 {
         // one item taken, the iterator leaked (mem::forget: no destructor runs), then a second
